@@ -71,6 +71,7 @@ def parseOp (ws : List String) : Option (Op Int Int) :=
   | ["deletemax"] => some .deleteMax
   | ["deleteall"] => some .deleteAll
   | ["swap"] => some .swap
+  | ["swapc"] => some .swapC
   | ["size"] => some .size
   | ["isempty"] => some .isEmpty
   | ["height"] => some .height
@@ -96,15 +97,10 @@ def parseOp (ws : List String) : Option (Op Int Int) :=
   | _ => none
 
 /-- which table(s) a call changed, for the `dump=1` suffix -/
-def dumpSuffix (kind : Kind) (cmp : Int → Int → Int) (s : State Int Int) (before : State Int Int) :
-    Op Int Int → String
-  | .put .. | .delete .. | .deleteMin | .deleteMax | .deleteAll | .swap => " | " ++ dumpTree kind s.1
-  | .selectMatch _ => " | " ++ dumpTree kind s.2
-  | .partitionMatch p =>
-    -- the unmatched table is not kept in the state: recompute it for the dump
-    match partitionMatch kind cmp p before.1 with
-    | .ok (_, u) => " | " ++ dumpTree kind s.2 ++ " | " ++ dumpTree kind u
-    | _ => ""
+def dumpSuffix (kind : Kind) (s : State Int Int) : Op Int Int → String
+  | .put .. | .delete .. | .deleteMin | .deleteMax | .deleteAll | .swap | .swapC => " | " ++ dumpTree kind s.1
+  | .selectMatch _ => " | " ++ dumpTree kind s.2.1
+  | .partitionMatch _ => " | " ++ dumpTree kind s.2.1 ++ " | " ++ dumpTree kind s.2.2
   | _ => ""
 
 def runCase (hdr : List String) (ops : List String) : List String := Id.run do
@@ -121,7 +117,7 @@ def runCase (hdr : List String) (ops : List String) : List String := Id.run do
     | some "rdiff" => cmpRDiff
     | _ => cmpAsc
   let withDump := headerNat hdr "dump" 0 == 1
-  let mut s : State Int Int := (.nil, .nil)
+  let mut s : State Int Int := (.nil, .nil, .nil)
   let mut dead := false
   let mut out : Array String := #[]
   for line in ops do
@@ -135,7 +131,7 @@ def runCase (hdr : List String) (ops : List String) : List String := Id.run do
     | some op =>
       match step kind cmp eqI s op with
       | .ok (s', o) =>
-        let suffix := if withDump then dumpSuffix kind cmp s' s op else ""
+        let suffix := if withDump then dumpSuffix kind s' op else ""
         s := s'
         out := out.push (showOut o ++ suffix)
       | .panic => dead := true; out := out.push "panic"
